@@ -27,8 +27,9 @@ struct Tracked
     Tracked &operator=(const Tracked &o) { if (!live().count(this) || !live().count(&o)) fail("assignment to or from a dead object"); v = o.v; return *this; }
     Tracked &operator=(Tracked &&o) { if (!live().count(this) || !live().count(&o)) fail("move assignment to or from a dead object"); int x = o.v; if (&o != this) o.v = -1; v = x; return *this; }
     ~Tracked() { if (!live().erase(this)) fail("an object is destroyed twice (or was never constructed)"); }
-    bool operator==(const Tracked &o) const { return v == o.v; }
-    bool operator<(const Tracked &o) const { return v < o.v; }
+    bool operator==(const Tracked &o) const { if (!live().count(this) || !live().count(&o)) fail("comparison reads an element that is not alive"); return v == o.v; }
+    bool operator!=(const Tracked &o) const { return !(*this == o); }
+    bool operator<(const Tracked &o) const { if (!live().count(this) || !live().count(&o)) fail("comparison reads an element that is not alive"); return v < o.v; }
 };
 
 typedef igris::vector<Tracked> IV;
@@ -79,6 +80,15 @@ int main()
     for (int k = 0; k <= 3; k++) {
         STATE("copy assignment", { IV b; SV mb; build(b, mb, k, 0); b = a; compare(b, m, m.size()); } compare(a, m, 0);)
         STATE("move assignment", { IV b; SV mb; build(b, mb, k, 0); b = std::move(a); compare(b, m, a.size()); if (a.size() > a.capacity()) fail("moved-from vector inconsistent"); a.push_back(Tracked(5)); if (a.size() == 0 || a[a.size() - 1].v != 5) fail("moved-from vector not usable"); })
+    }
+    // comparisons: b is a copy of a, then shortened by k (pop_back leaves dead slots behind size()) and optionally changed in its last element
+    for (int k = 0; k <= 4; k++) for (int tweak = -1; tweak <= 1; tweak++) {
+        STATE("operator== / != / <", if (k <= n) { IV b(a); SV mb(m); for (int i = 0; i < k; i++) { b.pop_back(); mb.pop_back(); }
+              if (tweak && !mb.empty()) { b[b.size() - 1] = Tracked(mb.back() + tweak); mb.back() += tweak; }
+              if ((a == b) != (m == mb) || (b == a) != (mb == m)) fail("operator== differs from std::vector");
+              if ((a != b) != (m != mb)) fail("operator!= differs from std::vector");
+              if ((a < b) != (m < mb)) fail("operator< (longer or equal on the left) differs from std::vector");
+              if ((b < a) != (mb < m)) fail("operator< (shorter on the left) differs from std::vector"); })
     }
     STATE("self copy assignment", { IV &r = a; a = r; compare(a, m, 0); })
     if (fails) { std::printf("%d clause violations (first shown) after %ld start states x operations\n", fails, cnt); return 1; }
